@@ -11,6 +11,8 @@ mod inbound_oracles;
 mod c05;
 mod c06;
 mod c06wrap;
+mod c07;
+mod c08;
 mod c09;
 mod c10;
 mod c10conn;
@@ -54,7 +56,8 @@ fn main() {
             let choices: Vec<u16> = if is_script { vec![] } else { raw.split(',').filter_map(|x| x.parse().ok()).collect() };
             let script: Option<Vec<String>> = if is_script { Some(raw.split(';').map(|x| x.trim().to_string()).filter(|x| !x.is_empty()).collect()) } else { None };
             let rec = match prop.as_str() {
-                "C05" | "C13" | "C06" | "C14" => c05::trace(&prop, t, idx, &choices, script, 20_000),
+                "C05" | "C13" | "C06" | "C14" | "C08" => c05::trace(&prop, t, idx, &choices, script, 20_000),
+                "C07" => c07::trace(t, idx, &choices, script, 20_000),
                 "C03" | "C04" | "C11" | "C12" | "C16" | "C17" => c03::trace(&prop, t, idx, &choices, script, 20_000),
                 _ => {
                     eprintln!("no trace support for {prop}");
@@ -82,7 +85,8 @@ fn main() {
                 let choices: Vec<u16> = r["choices"].as_array().map(|a| a.iter().map(|x| x.as_u64().unwrap() as u16).collect()).unwrap_or_default();
                 let max_polls = r["max_polls"].as_u64().unwrap_or(20_000);
                 let rec = match prop.as_str() {
-                    "C05" | "C13" | "C06" | "C14" => c05::trace(&prop, t, idx, &choices, None, max_polls),
+                    "C05" | "C13" | "C06" | "C14" | "C08" => c05::trace(&prop, t, idx, &choices, None, max_polls),
+                    "C07" => c07::trace(t, idx, &choices, None, max_polls),
                     "C03" | "C04" | "C11" | "C12" | "C16" | "C17" => c03::trace(&prop, t, idx, &choices, None, max_polls),
                     _ => {
                         eprintln!("no simnet replay for {prop}");
@@ -128,6 +132,8 @@ fn main() {
                 Some("C02") => c02::run(t),
                 Some("C03") => c03::run_c03(t),
                 Some("C04") => c03::run_c04(t),
+                Some("C07") => c07::run(t),
+                Some("C08") => c08::run(t),
                 Some("C11") => c11::run(t),
                 Some("C17") => c17::run(t),
                 Some("C16") => c16::run(t),
